@@ -24,7 +24,7 @@ type Opts struct {
 var AllFeatures = []string{
 	"async", "err", "multi", "bind", "struct", "value", "sets", "lit", "ext", "ctxparam",
 	"composite", "basic", "args", "unneeded", "multi-inj", "multi-file", "dupparam",
-	"generic", "variadic", "variadic-functype", "want-unsupplied", "kalias", "extalias", "value-and-pointer", "rewrap", "struct-both-forms", "alias-basic", "ctx-provider", "implements-error", "adv-pkg-shadowed-by-later-decl", "value-literal", "multi-var-sets", "ext-method-value", "err-alias", "chan-of-recv-chan", "ctx-alias", "set-included-twice", "prov-func-var-named-type", "nested-struct-expansion", "local-provider-ext-result", "arg-ext-type", "arg-hidden-ext", "set-ref-paren", "set-decl-paren", "set-alias-var", "elem-paren", "elem-hoisted-var", "inject-spelling", "prov-func-var",
+	"generic", "variadic", "variadic-functype", "want-unsupplied", "kalias", "extalias", "value-and-pointer", "rewrap", "struct-both-forms", "alias-basic", "ctx-provider", "implements-error", "adv-pkg-shadowed-by-later-decl", "value-literal", "multi-var-sets", "ext-method-value", "err-alias", "ext-alias-differs-between-files", "chan-of-recv-chan", "ctx-alias", "set-included-twice", "prov-func-var-named-type", "nested-struct-expansion", "local-provider-ext-result", "arg-ext-type", "arg-hidden-ext", "set-ref-paren", "set-decl-paren", "set-alias-var", "elem-paren", "elem-hoisted-var", "inject-spelling", "prov-func-var",
 	"async-struct", "ptrrecv", "aiface", "embedded",
 }
 
@@ -581,6 +581,11 @@ func Gen(rt *rapid.T, o Opts) *Case {
 		g.genUnit(i)
 	}
 	g.genGroupsAndInjectors()
+	// the same package under different names in different files of the user package
+	if len(g.c.Exts) == 1 && g.c.Exts[0].Alias != "" && !g.used[g.c.Exts[0].Name] && !g.c.HasInjectorNamed(g.c.Exts[0].Name) && g.want("ext-alias-differs-between-files", "otherplain", 50) {
+		g.c.OtherFilesPlain = true
+		g.used[g.c.Exts[0].Name] = true // the plain name is an import name now: no package-level identifier may take it
+	}
 	if o.Adversarial {
 		n := rapid.IntRange(0, 4).Draw(rt, "npkgnames")
 		for i := 0; i < n; i++ {
